@@ -142,7 +142,9 @@ type sample struct {
 	Output   string `json:"output_both_sides"`
 }
 
-func record(run *vrun.Run, p *Pair, c *Case, v *Verdict, pairs PairSet) {
+var shrunkKeys = map[string]bool{}
+
+func record(run *vrun.Run, p *Pair, c *Case, v *Verdict, pairs PairSet, sk *Skew) {
 	run.Eval(1)
 	run.Cover("verdict=" + v.Kind)
 	run.Cover("cat=" + v.Cat)
@@ -191,6 +193,21 @@ func record(run *vrun.Run, p *Pair, c *Case, v *Verdict, pairs PairSet) {
 	case "violated":
 		if v.NonTrivial {
 			run.Nontrivial(c.Hash())
+		}
+		run.Cover("violated-cases")
+		if !shrunkKeys[v.Key] {
+			// first case of this key in this process: report a minimal witness
+			shrunkKeys[v.Key] = true
+			key := v.Key
+			m := Shrink(*c, 120, func(d *Case) bool {
+				w := Judge(p, d, sk)
+				return w.Kind == "violated" && w.Key == key
+			})
+			mv := Judge(p, &m, sk)
+			if mv.Kind == "violated" && mv.Key == key {
+				run.Violation(key, mv.Msg, &m)
+				return
+			}
 		}
 		run.Violation(v.Key, v.Msg, c)
 	}
@@ -288,7 +305,7 @@ func Main() {
 		}
 		v := Judge(p, &c, sk)
 		fmt.Printf("replay verdict: %s %s\n  go: %s\n  C : %s\n", v.Kind, v.Class, Fmt(v.Go), Fmt(v.C))
-		record(run, p, &c, &v, nil)
+		record(run, p, &c, &v, nil, sk)
 		run.Finish(vrun.Level{Level: "exploration", Rule: "replay"})
 	}
 
@@ -327,7 +344,7 @@ func Main() {
 				r := gen.New(run.Seed, "C05/case/"+ref, (i%pl.Batches)*pl.PerTask+k)
 				c := GenCase(r, cur, GenOpts{})
 				v := Judge(cur, &c, pl.Skew)
-				record(run, cur, &c, &v, pairs)
+				record(run, cur, &c, &v, pairs, pl.Skew)
 				if len(c.Vars) > 0 && v.Kind == "equal" {
 					if lastVar == nil || varsKey(lastVar) != varsKey(&c) {
 						if lastVar != nil {
@@ -360,7 +377,7 @@ func Main() {
 	t0 := time.Now()
 	sk := ComputeSkew()
 	faces, rejected := EligibleFaces()
-	pl := &Plan{Faces: faces, Skew: sk, Batches: run.Pick(2, 60), PerTask: run.Pick(40, 100)}
+	pl := &Plan{Faces: faces, Skew: sk, Batches: run.Pick(8, 80), PerTask: run.Pick(50, 100)}
 	if err := SavePlan(planPath, pl); err != nil {
 		fmt.Fprintln(os.Stderr, "plan:", err)
 		os.Exit(3)
@@ -387,7 +404,7 @@ func Main() {
 	}
 	n := len(faces) * pl.Batches
 	run.Extra("cases_planned", n*pl.PerTask)
-	run.RunChildren(vrun.ChildCfg{N: n, Chunk: run.Pick(48, 240), StallWall: 600 * time.Second}, func(d vrun.Death) {
+	run.RunChildren(vrun.ChildCfg{N: n, Chunk: run.Pick(96, 400), StallWall: 600 * time.Second}, func(d vrun.Death) {
 		run.Inconclusive("go side died in a worker (C01): " + d.Kind)
 		run.Note("task %d (face %s): %s", d.Case, faces[d.Case/pl.Batches], vrun.FatalHead(d.Detail))
 	})
